@@ -281,14 +281,17 @@ Definition invert (cfg : nconfig) (norm : json) : res json :=
   merge cfg inv.
 
 (* ---------- simplifications ---------- *)
-Definition simplify_const (d : dict) : dict :=
+(* const next to enum (after the fix): _merge_enums(enum, [const]) -- the constant if the enum lists it, nothing otherwise *)
+Definition simplify_const (d : dict) : res dict :=
   match dget (kw "const") d with
-  | None => d
+  | None => Ok d
   | Some c =>
     let d' := ddel (kw "const") d in
     match dget (kw "enum") d' with
-    | Some (JArr l) => dset (kw "enum") (JArr (l ++ [c])) d'
-    | _ => dset (kw "enum") (JArr [c]) d'
+    | Some (JArr l) =>
+        if hashable_all l && is_scalar c then Ok (dset (kw "enum") (JArr (einter l [c])) d') else nerr
+    | Some _ => PyErr ETypeError
+    | None => Ok (dset (kw "enum") (JArr [c]) d')
     end
   end.
 
@@ -356,7 +359,8 @@ Fixpoint to_dnf (fuel : nat) (schema : json) : res json :=
   | JBool true => Ok NORM_TRUE
   | JObj d0 =>
     let d1 := filter (fun '(k, _) => negb (smem k (discard_fields cfg))) d0 in
-    let d2 := simplify_ite SV (simplify_const d1) in
+    do dc <- simplify_const d1;
+    let d2 := simplify_ite SV dc in
     do d3 <- simplify_type d2;
     do d <- simplify_depreq d3;
     (* anyOf *)
